@@ -1,7 +1,7 @@
 (* Evaluates the server model on the histories the harness ran against the real
    server and compares canonical projections. *)
 From Coq Require Import ZArith List Bool.
-From GCA Require Import Wrap Bytes Codec Amap Timeslot Server Archive RunLib.
+From GCA Require Import Wrap Bytes Codec Amap Timeslot ClientHistory ClientReports ClientServer Server Archive RunLib.
 Import ListNotations.
 Open Scope Z_scope.
 Notation length := List.length.
@@ -98,7 +98,9 @@ Inductive hop :=
 | HRecent (key : bytes) (ob : obs)
 | HSnap (s : snap)
 | HLoad (dk : cdisk) (now : Z) (ob : lobs)     (* start-up on a crash image; the running history is not affected *)
-| HArchive (sched : list (list op * ftag)) (last : list op) (ob : carchive).
+| HArchive (sched : list (list op * ftag)) (last : list op) (ob : carchive)
+| HResend (id origin : Z) (hist : bytes) (latest : Z) (sigs : list (bytes * bytes)) (observed : list bytes).
+                                               (* the datagrams a real client retransmitted in one sync round against this state *)
                                                (* archive request with write bursts in the gaps between the file reads *)
 
 Definition uncanon_stats (c : cstats) : stats :=
@@ -144,6 +146,17 @@ Definition archive_matches (ar : archive) (ob : carchive) : bool :=
   opt_eqb bytes_eqb (ar_gca ar) (ca_gca ob) && opt_eqb bytes_eqb (ar_temp ar) (ca_temp ob) &&
   bytes_eqb (ar_pub ar) (ca_pub ob).
 
+(* the device's signatures as observed (message -> signature) *)
+Definition sig_lookup (tab : list (bytes * bytes)) (m : bytes) : bytes :=
+  match find (fun e => bytes_eqb (fst e) m) tab with Some e => snd e | None => [] end.
+
+Definition resend_matches (st : state) (id origin : Z) (h : bytes) (latest : Z) (sigs : list (bytes * bytes)) (observed : list bytes) : bool :=
+  match sync_view st id with
+  | Some (_, off, bits) =>
+      list_eqb bytes_eqb (map (datagram (sig_lookup sigs) id) (resend_emissions origin h off latest bits)) observed
+  | None => match observed with [] => true | _ => false end
+  end.
+
 Fixpoint run_hist (t : sigtable) (tk : bytes) (fresh : bytes * bytes) (st : state) (h : list hop) (i : nat) : option nat :=
   match h with
   | [] => None
@@ -151,6 +164,8 @@ Fixpoint run_hist (t : sigtable) (tk : bytes) (fresh : bytes * bytes) (st : stat
       let '(st1, ar) := archive_run (tverify t) nosign nosb st empty_archive sched in
       let ar' := finish_archive (tverify t) nosign nosb st1 ar last in
       if archive_matches ar' ob then run_hist t tk fresh (run (tverify t) nosign nosb st1 last) h' (S i) else Some i
+  | HResend id origin hist latest sigs observed :: h' =>
+      if resend_matches st id origin hist latest sigs observed then run_hist t tk fresh st h' (S i) else Some i
   | HLoad c now ob :: h' => if load_matches t tk fresh c now ob then run_hist t tk fresh st h' (S i) else Some i
   | HOp o ob :: h' =>
       let '(st', out) := step (tverify t) nosign nosb st o in
